@@ -95,6 +95,26 @@ type world struct {
 	total    *big.Int // sum of balances + all fees: constant
 
 	nSuccess, nOther int
+
+	txLog []loggedTx  // every transaction object built from a tx step, for re-execution after an abandoned block attempt
+	hist  []histEntry // the executed (not rejected) transactions since the last commit/abandon, newest last
+
+	committedUsers []acct   // the model at the last commit (newBlockAttempt goes back to it)
+	committedTotal *big.Int // the conserved total at the last commit
+}
+
+type loggedTx struct {
+	tx       *transaction.Transaction
+	snd, rcv int
+}
+
+// histEntry is the point just before an executed transaction: what dropping its miniblock has to restore.
+type histEntry struct {
+	journalLen int
+	users      []acct
+	accFees    *big.Int
+	hash       []byte
+	snd, rcv   int
 }
 
 func addrOf(mode int64, idx int, filler bool) []byte {
@@ -208,7 +228,7 @@ func (w *world) newTxProcessor() error {
 		Hasher:                         blake2b.NewBlake2b(),
 		PubkeyConv:                     pkc,
 		Marshalizer:                    w.marsh,
-		SignMarshalizer:                w.marsh,
+		SignMarshalizer:                &marshal.JsonMarshalizer{}, // the node's [TxSignMarshalizer] Type = "json"; internal marshalizer is gogo protobuf
 		ShardCoordinator:               shardC,
 		ScProcessor:                    w.sc,
 		TxFeeHandler:                   w.fees,
@@ -450,6 +470,7 @@ func execC23(c *simkit.Ctx) bool {
 		return false
 	}
 	w.total = sumAll(w.users, w.fillers)
+	w.markCommitted()
 	if err = w.newTxProcessor(); err != nil {
 		c.HarnessErr("tx processor: %v", err)
 		return false
@@ -480,6 +501,21 @@ func execC23(c *simkit.Ctx) bool {
 			c.StepsDone++
 		case "tx":
 			if !w.doTx(st) {
+				return false
+			}
+			c.StepsDone++
+		case "redo":
+			if !w.redo(int(st.Int(0, 0))) {
+				return false
+			}
+			c.StepsDone++
+		case "newBlockAttempt":
+			if !w.newBlockAttempt() {
+				return false
+			}
+			c.StepsDone++
+		case "dropLastMiniblock":
+			if !w.dropLastMiniblock(int(st.Int(0, 1))) {
 				return false
 			}
 			c.StepsDone++
@@ -515,6 +551,7 @@ func (w *world) commit() bool {
 	w.closed.Add(w.closed, w.fees.GetAccumulatedFees())
 	w.fees.CreateBlockStarted()
 	w.accFees = big.NewInt(0)
+	w.markCommitted()
 	c.Eventf("commit root=%x closedFees=%s", root[:4], w.closed)
 	c.FPBytes(root)
 	return true
@@ -535,6 +572,10 @@ func (w *world) restart() bool {
 		c.HarnessErr("commit failed without an armed fault: %v", err)
 		return false
 	}
+	w.closed.Add(w.closed, w.fees.GetAccumulatedFees())
+	w.fees.CreateBlockStarted()
+	w.accFees = big.NewInt(0)
+	w.markCommitted()
 	w.closeStack()
 	if err = w.open(root); err != nil {
 		c.HarnessErr("reopen from committed root %x: %v", root, err)
@@ -547,6 +588,109 @@ func (w *world) restart() bool {
 	c.Eventf("restart from root=%x", root[:4])
 	c.Probe("restart_from_committed_root")
 	return true
+}
+
+func (w *world) markCommitted() {
+	w.hist = nil
+	w.committedUsers = make([]acct, len(w.users))
+	for i := range w.users {
+		w.committedUsers[i] = w.users[i].clone()
+	}
+	w.committedTotal = new(big.Int).Set(w.total)
+}
+
+// newBlockAttempt abandons everything since the last commit: accounts back to the committed root
+// (RevertToSnapshot(0)), fee handler CreateBlockStarted (accumulated fees and the per-hash map start empty). The
+// fees booked in the abandoned attempt vanish together with the debits that paid them: the total is the committed one.
+func (w *world) newBlockAttempt() bool {
+	c := w.c
+	if err := w.adb.RevertToSnapshot(0); err != nil {
+		c.HarnessErr("RevertToSnapshot(0) failed without an armed fault: %v", err)
+		return false
+	}
+	w.fees.CreateBlockStarted()
+	for i := range w.committedUsers {
+		w.users[i] = w.committedUsers[i].clone()
+	}
+	w.accFees = big.NewInt(0)
+	w.total = new(big.Int).Set(w.committedTotal)
+	w.hist = nil
+	c.Eventf("newBlockAttempt: back to the last commit")
+	c.Probe("block_attempt_abandoned")
+	if got := w.fees.GetAccumulatedFees(); got.Sign() != 0 {
+		c.Violate("C23", "fee-collector-after-new-block-attempt", "CreateBlockStarted", "accumulated fees = %s right after CreateBlockStarted, the attempt starts with 0", got)
+	}
+	return true // nothing is read here: the re-created trie stays cold, the next sweep compares every account
+}
+
+// dropLastMiniblock drops the k most recent executed transactions by hash, as the transaction coordinator does with
+// a miniblock it cannot keep: accounts.RevertToSnapshot(snapshot before the first of them) + feeHandler.RevertFees(hashes).
+func (w *world) dropLastMiniblock(k int) bool {
+	c := w.c
+	if k < 1 {
+		k = 1
+	}
+	if k > 3 {
+		k = 3
+	}
+	if k > len(w.hist) {
+		k = len(w.hist)
+	}
+	if k == 0 {
+		c.Eventf("skip dropLastMiniblock: nothing executed since the last commit")
+		return true
+	}
+	group := w.hist[len(w.hist)-k:]
+	first := group[0]
+	hashes := make([][]byte, 0, k)
+	touched := map[int]bool{}
+	for _, h := range group {
+		hashes = append(hashes, h.hash)
+		touched[h.snd], touched[h.rcv] = true, true
+	}
+	if err := w.adb.RevertToSnapshot(first.journalLen); err != nil {
+		c.HarnessErr("RevertToSnapshot(%d) failed without an armed fault: %v", first.journalLen, err)
+		return false
+	}
+	w.fees.RevertFees(hashes)
+	w.hist = w.hist[:len(w.hist)-k]
+	c.Eventf("dropLastMiniblock: %d transactions, journal back to %d", k, first.journalLen)
+	c.Probe("miniblock_dropped_by_hash")
+	// model: balances, nonces and accumulated fees as they were just before the first dropped transaction
+	for i := range w.users {
+		w.users[i] = first.users[i].clone()
+	}
+	w.accFees = new(big.Int).Set(first.accFees)
+	if got := w.fees.GetAccumulatedFees(); got.Cmp(w.accFees) != 0 {
+		c.Violate("C23", "fee-collector-after-dropped-miniblock", "RevertFees", "accumulated fees = %s after dropping %d transactions by hash, the fees accounted before them were %s", got, k, w.accFees)
+		return true
+	}
+	for i := 0; i < len(w.users); i++ {
+		if !touched[i] {
+			continue
+		}
+		a, err := w.observe(w.userAddr[i])
+		if err != nil {
+			c.HarnessErr("oracle read of account %d failed without an armed fault: %v", i, err)
+			return false
+		}
+		if a.bal.Cmp(w.users[i].bal) != 0 || a.nonce != w.users[i].nonce {
+			c.Violate("C23", "changed-outside-its-transactions", "dropLastMiniblock", "account %d is %s/%d after its transactions were dropped, before them it was %s/%d", i, a.bal, a.nonce, w.users[i].bal, w.users[i].nonce)
+			return true
+		}
+	}
+	return true
+}
+
+// redo re-submits an earlier transaction object unchanged (same fields, same hash), as a new block attempt does.
+func (w *world) redo(back int) bool {
+	if back < 0 || back >= len(w.txLog) {
+		w.c.Eventf("skip redo: no such transaction")
+		return true
+	}
+	l := w.txLog[len(w.txLog)-1-back]
+	w.c.Probe("transaction_re_executed")
+	return w.execTx(l.tx, l.snd, l.rcv, "", 0)
 }
 
 // sweep re-reads every account (users and bystanders) and compares it with the reference model, then checks the
@@ -648,6 +792,29 @@ func (w *world) doTx(st *simkit.Step) bool {
 	if tx.Value.Sign() < 0 {
 		tx.Value = big.NewInt(0)
 	}
+	w.txLog = append(w.txLog, loggedTx{tx: tx, snd: snd, rcv: rcv})
+	return w.execTx(tx, snd, rcv, st.Fault, st.FaultAt)
+}
+
+// execTx processes one transaction object the way the block processor does and checks the outcome.
+func (w *world) execTx(tx *transaction.Transaction, snd, rcv int, fault string, faultAt int) bool {
+	c := w.c
+	nAcc := len(w.users)
+	ms := w.users[snd]
+	required := w.econ.ComputeGasLimit(tx)
+	txFee := w.econ.ComputeTxFee(tx)
+	moveFee := w.econ.ComputeMoveBalanceFee(tx)
+	maxCost := core.SafeMul(tx.GasLimit, tx.GasPrice)
+	// every transaction is identified by the coordinator's hash: hasher(internalMarshalizer.Marshal(tx))
+	txHash, herr := core.CalculateHash(w.marsh, blake2b.NewBlake2b(), tx)
+	if herr != nil {
+		c.HarnessErr("tx hash: %v", herr)
+		return false
+	}
+	before := histEntry{journalLen: 0, users: make([]acct, nAcc), accFees: new(big.Int).Set(w.accFees), hash: txHash, snd: snd, rcv: rcv}
+	for i := range w.users {
+		before.users[i] = w.users[i].clone()
+	}
 
 	// ---- prediction from the inputs: is this "a failure for insufficient funds"? ----
 	// Asserted only where every reading of "fee" in the statement agrees: the nonce is the account nonce, the real
@@ -666,10 +833,11 @@ func (w *world) doTx(st *simkit.Step) bool {
 
 	// ---- what the block processor does around one transaction ----
 	snapshot := w.adb.JournalLen()
+	before.journalLen = snapshot
 	firedBefore := c.Faults["get_error"]
 	getsBefore := w.disk.Gets
-	if st.Fault == "get_error" {
-		w.disk.Arm("get_error", st.FaultAt)
+	if fault == "get_error" {
+		w.disk.Arm("get_error", faultAt)
 	}
 	_, err := w.txp.ProcessTransaction(tx)
 	w.disk.Disarm()
@@ -763,6 +931,7 @@ func (w *world) doTx(st *simkit.Step) bool {
 			c.Probe("fee_accounted_before_faulted_abort")
 			expFees.Set(obsFees)
 			w.total.Add(w.total, d)
+			w.hist = nil // that stray booking is not tied to a kept transaction: no miniblock drop across it
 		}
 	}
 
@@ -830,5 +999,11 @@ func (w *world) doTx(st *simkit.Step) bool {
 	}
 	c.FP(class, errClass(err), snd == rcv, users[snd].bal.Sign(), len(tx.Data) > 0, tx.GasLimit > required, w.en.cur)
 	w.users, w.accFees = users, expFees
+	if class != "rejected" {
+		w.hist = append(w.hist, before)
+		if len(w.hist) > 8 {
+			w.hist = w.hist[len(w.hist)-8:]
+		}
+	}
 	return true
 }
